@@ -40,11 +40,102 @@ COMPONENTS = {
 }
 PROBES = ["evaluator_level_clauses_checked", "ensemble_with_failed_perturbations", "values_compared", "constraint_first_at_new_point", "jacobian_first_at_new_point", "gradient_first_at_new_point",
           "repeat_same_point", "population_request", "speculative", "split", "speculative_twin_compared", "gradient_free_method",
-          "callback_invocations", "linear_rows_in_script", "shape_change"]
+          "callback_invocations", "linear_rows_in_script", "shape_change",
+          "optimizer_object_restarted", "restarts_compared", "restart_same_free_other_fixed"]
+
+
+def _generate_restarts(rng: random.Random) -> dict:
+    """One EnsembleOptimizer object started two or three times; later starts keep the free variables of the point the
+    algorithm asked for last and differ in the fixed variables (a different point with the same free part)."""
+    for _ in range(40):
+        scn = gen_scipy.scipy_scenario(rng, PROP)
+        cfg = scn["configs"][0]
+        if cfg["variables"].get("mask") is not None and "linear_constraints" not in cfg:
+            break
+    cfg = scn["configs"][0]
+    alpha = gen_scipy.alphabet(scn)
+    pool = scn["fake"]["points"]
+    script = []
+    for _ in range(rng.randint(1, 5)):
+        q, k = alpha[rng.randrange(len(alpha))]
+        script.append({"q": q, "k": k, "pt": rng.randrange(-1, len(pool))})
+    if rng.random() < 0.7:
+        # the run ends at the point it began with
+        script[-1]["pt"] = script[0]["pt"]
+    if scn["method"] == DE:
+        for e in script:
+            e["pts"] = [e["pt"]]
+    scn["fake"]["script"] = script
+    x0 = [float(v) for v in cfg["variables"]["initial_values"]]
+    mask = cfg["variables"].get("mask") or [True] * len(x0)
+    lb = cfg["variables"].get("lower_bounds")
+    ub = cfg["variables"].get("upper_bounds")
+    starts = [x0]
+    for _ in range(rng.randint(1, 2)):
+        nxt = list(starts[-1])
+        for i, free in enumerate(mask):
+            if not free or rng.random() < 0.25:
+                v = nxt[i] + rng.choice([-1, 1]) * round(rng.uniform(0.2, 1.5), 2)
+                if lb is not None and np.isfinite(np.atleast_1d(lb)[i % np.size(lb)]):
+                    v = max(v, float(np.atleast_1d(lb)[i % np.size(lb)]))
+                if ub is not None and np.isfinite(np.atleast_1d(ub)[i % np.size(ub)]):
+                    v = min(v, float(np.atleast_1d(ub)[i % np.size(ub)]))
+                nxt[i] = float(v)
+        starts.append(nxt)
+    scn["starts"] = starts
+    scn["entry"] = "optimizer_object_restarts"
+    scn["stratum"] = "optimizer-object-restarted"
+    return scn
+
+
+def _execute_restarts(scn: dict) -> dict:
+    ctx = harness.run_scenario(scn)
+    viol: list[dict] = []
+    probes: dict[str, int] = {"optimizer_object_restarted": 1}
+    cfg = scn["configs"][0]
+    marks = list(getattr(ctx, "restart_marks", [])) + [len(ctx.fake.log)]
+    compared = 0
+    mask = np.asarray(cfg["variables"].get("mask") or [True] * len(scn["starts"][0]), bool)
+    for i, e in enumerate(ctx.exits):
+        if e[0] != "ret":
+            viol.append({"clause": "request-sequence-raised", "sig": {"exception": str(e[2]).split(":")[0], "entry": "restart"},
+                         "detail": f"start {i} of one EnsembleOptimizer object ended with {e}"})
+    for i in range(min(len(marks) - 1, len(ctx.exits))):
+        if ctx.exits[i][0] != "ret":
+            break
+        c = copy.deepcopy(cfg)
+        c["variables"]["initial_values"] = list(scn["starts"][i])
+        if i > 0:
+            probes["restarts_compared"] = probes.get("restarts_compared", 0) + 1
+            a, b = np.asarray(scn["starts"][i - 1], float), np.asarray(scn["starts"][i], float)
+            if np.array_equal(a[mask], b[mask]) and not np.array_equal(a[~mask], b[~mask]):
+                probes["restart_same_free_other_fixed"] = probes.get("restart_same_free_other_fixed", 0) + 1
+        nviol = len(viol)
+        compared += _compare_log(ctx, c, viol, probes, log=ctx.fake.log[marks[i]:marks[i + 1]])
+        for v in viol[nviol:]:
+            v["sig"] = {**v["sig"], "start": min(i, 1)}
+            v["detail"] = f"start {i} of one EnsembleOptimizer object at {scn['starts'][i]}: " + v["detail"]
+    from sim.seeds import H
+    key = ("restart", scn["method"], str(cfg["variables"].get("mask")), len(scn["starts"]),
+           str([(e["q"], e.get("k"), e.get("pt")) for e in scn["fake"]["script"]]))
+    return {
+        "violations": _dedupe(viol),
+        "nontrivial": compared > 0 and len(ctx.exits) >= 2,
+        "key": f"{H(key):016x}",
+        "probes": probes,
+        "fired": dict(ctx.evaluator.fired),
+        "digest": harness.trace_digest(ctx) + _log_digest(ctx),
+        "evals": len(ctx.evaluator.calls),
+        "events": len(ctx.events),
+        "stratum": scn.get("stratum"),
+        "summary": {"exits": [list(e) for e in ctx.exits], "compared": compared, "method": scn["method"]},
+    }
 
 
 def generate(seed: int, index: int, tier: str) -> dict:
     rng = random.Random(seed)
+    if index % 12 == 7:
+        return _generate_restarts(rng)
     ensemble = index % 6 == 5
     scn = gen_scipy.scipy_scenario(rng, PROP, method=(rng.choice(GRADIENT) if ensemble else None))
     if ensemble:
@@ -162,7 +253,7 @@ def _same_point(a, b) -> bool:
     return a.shape == b.shape and np.allclose(a, b)
 
 
-def _compare_log(ctx, cfg, viol, probes):
+def _compare_log(ctx, cfg, viol, probes, log=None):
     def probe(name, n=1):
         probes[name] = probes.get(name, 0) + n
 
@@ -171,7 +262,7 @@ def _compare_log(ctx, cfg, viol, probes):
     compared = 0
     seen_points: list[np.ndarray] = []
     last = None
-    for rec in ctx.fake.log:
+    for rec in (ctx.fake.log if log is None else log):
         if "ret" not in rec:
             continue
         x = rec["x"]
@@ -228,6 +319,9 @@ def _compare_log(ctx, cfg, viol, probes):
 
 
 def execute(scn: dict) -> dict:
+    if scn.get("entry") == "optimizer_object_restarts":
+        return _execute_restarts(scn)
+
     def _setup(ctx_):
         ctx_.call_stamps = {}
         ctx_.evaluator.pre_hooks.append(lambda ev, k: ctx_.call_stamps.__setitem__(k, ctx_.fake.next_seq()))
@@ -393,6 +487,10 @@ def _dedupe(viol):
 def reductions(scn: dict):
     # shrink the fake script (ddmin handles lists named "script" inside optimizer options only)
     s = scn["fake"]["script"]
+    if scn.get("entry") == "optimizer_object_restarts" and len(scn["starts"]) > 2:
+        c = copy.deepcopy(scn)
+        del c["starts"][-1]
+        yield c
     for i in range(len(s)):
         if len(s) > 1:
             c = copy.deepcopy(scn)
